@@ -1,6 +1,6 @@
 (* Extraction of the executable model.  ExtrOcamlBasic only: bool, option, list, prod,
    unit, sumbool map to OCaml's; N, positive, nat stay Coq inductives. *)
-From KV Require Import Bytes Crc Chunk Record Engine Script Crash.
+From KV Require Import Bytes Crc Chunk Record Engine Script Crash Index.
 Require Import ExtrOcamlBasic.
 Extraction Language OCaml.
 Extraction "model.ml"
@@ -10,4 +10,5 @@ Extraction "model.ml"
   encode_marker decode_marker disk_size_estimate encoded_len frame df_run
   db_open db_close db_put db_get db_delete db_list_keys db_fold db_stat db_sync
   new_batch batch_put batch_get batch_delete batch_commit db_merge db_backup db_files
-  lf_crash idx_get mkCfg mkDisk lf_empty step run crash_open crash_disk fs_replay fs_empty.
+  lf_crash idx_get mkCfg mkDisk lf_empty step run crash_open crash_disk fs_replay fs_empty
+  db_read di_new di_rewind di_seek di_next di_valid di_cur shards_of.
